@@ -33,7 +33,6 @@ PLAN = {
 PARTIAL = {
     "C01": "convergence is proved for spawn epochs (with clients leaving); histories with despawns from arbitrary peers: step laws only",
     "C09": "the numeric message bound is proved for host-writer epochs; for client-writer epochs only 'no echo' is proved",
-    "C10": "the sub-sequence theorem is proved for host-writer epochs; client-writer epochs through the relay are not",
 }
 
 TRUSTED = [
@@ -133,7 +132,7 @@ def check(prop_id, tier, seed, replay=None):
                 inst_of[l.split(" ")[1]] = (h, {})
                 lines.append(l)
         if "conn" in plan["slices"]:
-            for l in T.conn_lines(h, flags.get("connClientDisconnectLegacy", False)):
+            for l in T.conn_lines(h, flags.get("connClientDisconnectLegacy", False), flags.get("connConnectingOnlyFromDisconnected", False)):
                 inst_of[l.split(" ")[1]] = (h, {})
                 lines.append(l)
         if "asset" in plan["slices"]:
